@@ -21,14 +21,14 @@ RULE = ('grid coordinates in zones 46..59, eastings 100 000..900 000, latitudes 
         '(0.3 mm horizontally as a ground position, 0.2 mm in height), zone = natural zone of the transformed position, height 0 '
         'and horizontal result of the point on the ellipsoid when no height is given; round trip returns the same ground position '
         '(0.3 mm / 0.2 mm); returned covariance symmetric PSD and equal to R2^T (Jx R1 V R1^T Jx^T + Jp S Jp^T) R2 with the '
-        'published uncertainties.  distinct = direction x zone x |lat| band x height class x covariance kind x edge flag')
+        'published uncertainties.  every returned object that holds an array is kept with a copy and compared again after later calls (results are values: `earlier-result-changed-by-later-call`).  distinct = direction x zone x |lat| band x height class x covariance kind x edge flag')
 ASSUMPTIONS = ['tm_exact, helmert_exact and the closed-form Cartesian oracle (each self-validated per shard)',
                'GDA94->GDA2020 parameters and uncertainties as published in the GDA2020 technical manual, typed in this file',
                '"the same ground position" is compared after re-projection into one zone (the result is by definition expressed in '
                'its natural zone)', 'a 3x1 variance column stands for the diagonal matrix of those variances']
 N = {'quick': 500, 'thorough': 8000}
 SHARDS = {'quick': 16, 'thorough': 32}
-REQUIRED_COUNTERS = ['same_point_sequences', 'forward_judged', 'reverse_judged', 'roundtrip_judged', 'no_height_judged', 'vcv3x3_judged', 'vcv3x1_judged',
+REQUIRED_COUNTERS = ['kept_results_compared_after_later_calls', 'same_point_sequences', 'forward_judged', 'reverse_judged', 'roundtrip_judged', 'no_height_judged', 'vcv3x3_judged', 'vcv3x1_judged',
                      'zone_change_cases']
 A, INVF = 6378137.0, 298.257222101
 K0, FE, FN = 0.9996, 500000.0, 10000000.0
@@ -158,15 +158,24 @@ def ground_distance(lat_a, lon_a, lat_b, lon_b):
     return math.hypot(math.radians(lat_b - lat_a) * rho, math.radians(dlon) * nu * math.cos(phi))
 
 
+KEEPER = [None]        # core.ResultKeeper of the running shard: returned covariances must keep their values
+
+
 def call(ns, direction, zone, e, n, h, V):
     T = ns.transform
     fn = T.transform_mga94_to_mga2020 if direction == '94->2020' else T.transform_mga2020_to_mga94
     kw = {}
     if V is not None:
         kw['vcv'] = V
-    if h is None:
-        return fn(zone, e, n, **kw)
-    return fn(zone, e, n, h, **kw)
+    keeper = KEEPER[0]
+    if keeper is not None:
+        keeper.verify()
+    res = fn(zone, e, n, **kw) if h is None else fn(zone, e, n, h, **kw)
+    if keeper is not None:
+        keeper.verify()
+        keeper.keep(res, {'direction': direction, 'zone': zone, 'east': e, 'north': n, 'h': h,
+                          'vcv': None if V is None else np.asarray(V).tolist(), 'note': 'value kept from an earlier call of the sequence'})
+    return res
 
 
 def judge(ns, ctx, case):
@@ -294,6 +303,7 @@ class PipelineTrace:
 
 def run_shard(spec, ctx):
     ns = core.load_repo()
+    KEEPER[0] = core.ResultKeeper(ctx, 'wrapper')
     tmwork.tm_selfcheck(ctx, n_mp=2)
     sc = {'tm': ctx.info.pop('oracle_selfcheck')}
     try:
